@@ -21,6 +21,7 @@ type Program struct {
 	repo     string
 	harness  map[string]*ssa.Function // H_* entry points by name
 	loadSecs float64
+	dropped  []string
 }
 
 var goatPkgs = []string{
@@ -76,32 +77,54 @@ func loadProgram(repo, harnessDir string) (*Program, error) {
 	if err != nil {
 		return nil, err
 	}
-	cfg := &packages.Config{
-		Mode:       packages.LoadAllSyntax,
-		Dir:        repo,
-		BuildFlags: []string{"-tags=verif"},
-		Overlay:    ov,
-		Env:        append(os.Environ(), "GOFLAGS=-mod=mod", "GOPROXY=off", "GOSUMDB=off", "GOTOOLCHAIN=local"),
-	}
-	initial, err := packages.Load(cfg, goatPkgs...)
-	if err != nil {
-		return nil, err
-	}
-	nerr := 0
-	packages.Visit(initial, nil, func(p *packages.Package) {
-		for _, e := range p.Errors {
-			if strings.HasPrefix(p.PkgPath, "github.com/avos-io/goat") {
-				fmt.Fprintf(os.Stderr, "load error: %s: %v\n", p.PkgPath, e)
-				nerr++
-			}
+	var initial []*packages.Package
+	var dropped []string
+	for attempt := 0; ; attempt++ {
+		cfg := &packages.Config{
+			Mode:       packages.LoadAllSyntax,
+			Dir:        repo,
+			BuildFlags: []string{"-tags=verif"},
+			Overlay:    ov,
+			Env:        append(os.Environ(), "GOFLAGS=-mod=mod", "GOPROXY=off", "GOSUMDB=off", "GOTOOLCHAIN=local"),
 		}
-	})
-	if nerr > 0 {
-		return nil, fmt.Errorf("cannot build: %d type/load errors in goat packages", nerr)
+		initial, err = packages.Load(cfg, goatPkgs...)
+		if err != nil {
+			return nil, err
+		}
+		nerr := 0
+		bad := map[string]bool{}
+		packages.Visit(initial, nil, func(p *packages.Package) {
+			for _, e := range p.Errors {
+				if strings.HasPrefix(p.PkgPath, "github.com/avos-io/goat") {
+					fmt.Fprintf(os.Stderr, "load error: %s: %v\n", p.PkgPath, e)
+					nerr++
+					// a harness file that no longer type-checks against the current tree (e.g. an internal
+					// field changed its type) is dropped, so that the other harnesses still run
+					pos := e.Pos
+					if i := strings.Index(pos, ":"); i > 0 {
+						f := pos[:i]
+						if strings.HasPrefix(filepath.Base(f), "zz_verif_") && !strings.HasPrefix(filepath.Base(f), "zz_verif_common_") {
+							bad[f] = true
+						}
+					}
+				}
+			}
+		})
+		if nerr == 0 {
+			break
+		}
+		if len(bad) == 0 || attempt >= 3 {
+			return nil, fmt.Errorf("cannot build: %d type/load errors in goat packages", nerr)
+		}
+		for f := range bad {
+			delete(ov, f)
+			dropped = append(dropped, filepath.Base(f))
+		}
+		fmt.Fprintf(os.Stderr, "dropping harness files that do not compile against the current tree: %v\n", dropped)
 	}
 	prog, _ := ssautil.AllPackages(initial, ssa.InstantiateGenerics)
 	prog.Build()
-	p := &Program{prog: prog, pkgs: map[string]*ssa.Package{}, fset: prog.Fset, repo: repo, harness: map[string]*ssa.Function{}}
+	p := &Program{prog: prog, pkgs: map[string]*ssa.Package{}, fset: prog.Fset, repo: repo, harness: map[string]*ssa.Function{}, dropped: dropped}
 	for _, sp := range prog.AllPackages() {
 		p.pkgs[sp.Pkg.Path()] = sp
 	}
